@@ -1,5 +1,7 @@
 (* Property C13 - encodings round-trip.  Only theorem statements, closed by [exact]. *)
-From Virel Require Import Lib.Config Lib.U64 Model.Des Model.Codec Model.CodecBlock Proofs.Des Proofs.DesVal Proofs.Codec Proofs.CodecBlock Proofs.CodecWf Proofs.CodecBlockWf Gen.Params.
+From Virel Require Import Lib.Config Lib.U64 Model.Des Model.Codec Model.CodecBlock Proofs.Des Proofs.DesVal Proofs.Codec Proofs.CodecBlock Proofs.CodecWf Proofs.CodecBlockWf Gen.Params
+  Spec.TxAbs Proofs.CodecBridge.
+From Virel Require Model.Ledger Proofs.Conservation Proofs.Refine2 Proofs.Mempool.
 Open Scope N_scope.
 
 (* the side condition (sizes of keys, signatures, addresses; highest transaction version) holds at every configuration *)
@@ -223,3 +225,85 @@ Theorem C13_handshake_reencode : forall bs h, bytes bs ->
   result_of (run dec_handshake bs) = ROk h -> result_of (run dec_handshake (enc_handshake h)) = ROk h.
 Proof. exact handshake_reencode. Qed.
 Print Assumptions C13_handshake_reencode.
+
+(* ---- from the codec to the ledger model: whatever the wire decoders return is typed.
+   [abs_tx] (Spec/TxAbs.v) maps a decoded transaction to the symbolic transaction of the ledger model under ANY numbering
+   of transaction ids, keys, addresses, names and any reading of the signature (the seven functions quantified below);
+   version byte, payload kind, amounts, delegate ids, nonce and fee are copied.  For EVERY list of numbers bs (no bound on
+   its length or on its elements), both modes of Transaction.Deserialize and every configuration: the abstraction of a
+   returned transaction has the version byte of its payload kind ([ver_ok] of Proofs/Refine2.v: 0 with a transfer, or
+   AssociatedTransactionVersion of the payload) and uint64-typed amounts ([wf_tx] of Proofs/Conservation.v; its third
+   conjunct is the constant REGISTER_BURN < 2^64 = cfg_ok_burn).  The bound on the amounts is Des.ReadUvarint's:
+   binary.Uvarint reports overflow instead of returning more than 64 bits (uvarint_lt of Proofs/DesSafe.v).
+   These are the "codec facts" that C03_ledger_is_replay / the C17 history theorems take as a premise on the block
+   store; C03_ledger_is_replay_decoded and the C17 *_decoded theorems replace that premise by "is an abstraction of a
+   decoder output". *)
+Theorem C13_cfg_ok_burn_mainnet : cfg_ok_burn cfg_mainnet = true. Proof. vm_compute. reflexivity. Qed.
+Theorem C13_cfg_ok_burn_testnet : cfg_ok_burn cfg_testnet = true. Proof. vm_compute. reflexivity. Qed.
+Theorem C13_cfg_ok_burn_unittest : cfg_ok_burn cfg_unittest = true. Proof. vm_compute. reflexivity. Qed.
+Theorem C13_cfg_ok_burn_verifnet : cfg_ok_burn cfg_verifnet = true. Proof. vm_compute. reflexivity. Qed.
+
+Theorem C13_decoded_tx_is_typed :
+  forall (txid_of key_id addr_id name_id : list N -> N) (sig_by : tx -> N) (sig_msg : tx -> bool)
+         (signer_invalid : list N -> bool) cfg has_version bs t,
+  cfg_ok_burn cfg = true ->
+  result_of (run (dec_tx cfg has_version) bs) = ROk t ->
+  Refine2.ver_ok (abs_tx txid_of key_id addr_id name_id sig_by sig_msg signer_invalid t) = true /\
+  Conservation.wf_tx cfg (abs_tx txid_of key_id addr_id name_id sig_by sig_msg signer_invalid t).
+Proof. exact decoded_tx_is_typed. Qed.
+Print Assumptions C13_decoded_tx_is_typed.
+
+(* which version: with the version byte, the one of the payload kind ([tx_typed] of Proofs/Mempool.v) and within 1..5
+   whatever MAX_TX_VERSION is; without it, version 0 and a transfer *)
+Theorem C13_decoded_tx_version :
+  forall (txid_of key_id addr_id name_id : list N -> N) (sig_by : tx -> N) (sig_msg : tx -> bool)
+         (signer_invalid : list N -> bool) cfg has_version bs t,
+  result_of (run (dec_tx cfg has_version) bs) = ROk t ->
+  let x := abs_tx txid_of key_id addr_id name_id sig_by sig_msg signer_invalid t in
+  if has_version then Mempool.tx_typed x /\ 1 <= Ledger.tx_version x <= 5
+  else Ledger.tx_version x = 0 /\ exists outs, Ledger.tx_data x = Ledger.TTransfer outs.
+Proof. exact decoded_tx_version. Qed.
+Print Assumptions C13_decoded_tx_version.
+
+(* the decoder-level fact behind both: [tx_struct] of Proofs/CodecBridge.v = version byte as above, every integer field
+   (amounts, payment ids, delegate ids, unlock heights, nonce, fee) below 2^64 *)
+Theorem C13_decoded_tx_struct : forall cfg has_version bs t,
+  result_of (run (dec_tx cfg has_version) bs) = ROk t -> tx_struct has_version t.
+Proof. exact dec_tx_struct. Qed.
+Print Assumptions C13_decoded_tx_struct.
+
+(* Block.DeserializeFull (the path packetBlock -> DeserializeFull): every transaction of a returned block *)
+Theorem C13_decoded_block_txs_typed :
+  forall (txid_of key_id addr_id name_id : list N -> N) (sig_by : tx -> N) (sig_msg : tx -> bool)
+         (signer_invalid : list N -> bool) cfg bs b txs,
+  cfg_ok_burn cfg = true ->
+  result_of (run (dec_full_block cfg) bs) = ROk (b, txs) ->
+  Forall (fun t => Refine2.ver_ok (abs_tx txid_of key_id addr_id name_id sig_by sig_msg signer_invalid t) = true /\
+                   Conservation.wf_tx cfg (abs_tx txid_of key_id addr_id name_id sig_by sig_msg signer_invalid t)) txs.
+Proof. exact decoded_block_txs_typed. Qed.
+Print Assumptions C13_decoded_block_txs_typed.
+
+(* ... and the version regime follows the block's height exactly as check 202 of Transaction.Prevalidate expects it:
+   version 0 transfers below HARDFORK_V2_HEIGHT, the version of the payload kind (1..5) from that height on *)
+Theorem C13_decoded_block_txs_regime :
+  forall (txid_of key_id addr_id name_id : list N -> N) (sig_by : tx -> N) (sig_msg : tx -> bool)
+         (signer_invalid : list N -> bool) cfg bs b txs,
+  result_of (run (dec_full_block cfg) bs) = ROk (b, txs) ->
+  Forall (fun t => let x := abs_tx txid_of key_id addr_id name_id sig_by sig_msg signer_invalid t in
+                   if hd_height (bl_header b) <? hf_v2 cfg
+                   then Ledger.tx_version x = 0 /\ exists outs, Ledger.tx_data x = Ledger.TTransfer outs
+                   else Mempool.tx_typed x /\ 1 <= Ledger.tx_version x <= 5) txs.
+Proof. exact decoded_block_txs_regime. Qed.
+Print Assumptions C13_decoded_block_txs_regime.
+
+(* the stored form read by Blockchain.GetTx ([dec_stored_tx] of Proofs/CodecBridge.v: a transcription that is not
+   compared with the implementation by a harness), whichever of its attempts succeeded *)
+Theorem C13_stored_tx_is_typed :
+  forall (txid_of key_id addr_id name_id : list N -> N) (sig_by : tx -> N) (sig_msg : tx -> bool)
+         (signer_invalid : list N -> bool) cfg topheight bs t included_in,
+  cfg_ok_burn cfg = true ->
+  result_of (run (dec_stored_tx cfg topheight) bs) = ROk (t, included_in) ->
+  Refine2.ver_ok (abs_tx txid_of key_id addr_id name_id sig_by sig_msg signer_invalid t) = true /\
+  Conservation.wf_tx cfg (abs_tx txid_of key_id addr_id name_id sig_by sig_msg signer_invalid t).
+Proof. exact stored_tx_is_typed. Qed.
+Print Assumptions C13_stored_tx_is_typed.
